@@ -69,7 +69,29 @@ class FnTranslator:
                     return [(v, "otokName %s_" % base.id)], v, "str"
                 if key.value == "type":
                     return [(v, "otokTypeE %s_" % base.id)], v, "str"
+            # attr = ((namespace, name), value)  -- items() of a walker attribute dict
+            if (isinstance(base, ast.Subscript) and isinstance(base.value, ast.Name)
+                    and self.env.get(base.value.id) == "attr" and isinstance(base.slice, ast.Constant)
+                    and base.slice.value == 0 and isinstance(key, ast.Constant) and key.value in (0, 1)):
+                if key.value == 0:
+                    return [], "%s_.ns" % base.value.id, "ostr"
+                return [], "%s_.name" % base.value.id, "str"
+            if (isinstance(base, ast.Name) and self.env.get(base.id) == "attr" and isinstance(key, ast.Constant)
+                    and key.value == 1):
+                return [], "%s_.value" % base.id, "str"
             self.err(e, "subscript")
+        if isinstance(e, ast.Tuple) and len(e.elts) == 2 and not all(isinstance(x, ast.Constant) for x in e.elts):
+            parts = [self.expr(x) for x in e.elts]
+            if any(b for b, _, _ in parts) or any(t != "str" for _, _, t in parts):
+                self.err(e, "tuple of non-str values")
+            return [], "(%s, %s)" % (parts[0][1], parts[1][1]), "strpair"
+        if (isinstance(e, ast.BoolOp) and isinstance(e.op, ast.Or) and len(e.values) == 2
+                and isinstance(e.values[1], ast.Constant) and isinstance(e.values[1].value, str)):
+            b, c, t = self.expr(e.values[0])
+            if t == "ostr" and not b:
+                # Python `x or lit`: x when truthy (a non-empty str), else lit
+                return [], "(match %s with | some s => if s.isEmpty then %s else s | none => %s)" % (
+                    c, lean_str_c(e.values[1].value), lean_str_c(e.values[1].value)), "str"
         if isinstance(e, (ast.Tuple, ast.List, ast.Set)):
             items = []
             for x in e.elts:
@@ -180,6 +202,8 @@ class FnTranslator:
             if s.value is None:
                 self.err(s, "bare return")
             b, c, t = self.truthy(s.value) if self.ret == "bool" else self.expr(s.value)
+            if t != self.ret:
+                self.err(s, "return type %s (expected %s)" % (t, self.ret))
             out = "".join("%slet %s ← %s\n" % (pad, v, m) for v, m in b)
             return out + "%spure %s\n" % (pad, c)
         if isinstance(s, ast.Assign):
@@ -206,10 +230,10 @@ class FnTranslator:
 
     def translate(self, fallthrough="pure false"):
         sig = " ".join("(%s_ : %s)" % (p, {"str": "Str", "ostr": "Option Str", "otok": "Option Tok",
-                                           "bool": "Bool"}[t]) for p, t in self.params)
-        rett = {"bool": "Bool", "str": "Str"}[self.ret]
+                                           "bool": "Bool", "attr": "Attr"}[t]) for p, t in self.params)
+        rett = {"bool": "Bool", "str": "Str", "strpair": "Str × Str"}[self.ret]
         body = self.block(self.fn.body, lambda i: "  " * i + fallthrough + "\n", 1)
-        return "def %s %s : Except PyErr %s := do\n%s" % (self.name, sig, rett, body)
+        return "def %s %s : Except PyErr (%s) := do\n%s" % (self.name, sig, rett, body)
 
 
 def find_function(tree, qualname):
